@@ -1,26 +1,37 @@
 (* C16 — A saved and restored searcher continues exactly like the original
    (get_state / clone_from_state half; the dill half is behavioural, see harness/drivers/c16.py).
    The model (model/Searcher.v) keeps literally the split the code makes between what get_state
-   RETURNS and what clone_from_state REBUILDS from constructor arguments.
+   RETURNS and what clone_from_state REBUILDS from constructor arguments. (The model has no object
+   identity: that snapshot, source and clones do not share mutable containers — findings
+   F-C16-6/7/8 — is checked on the real objects by the driver.)
    Only statements; proofs are [exact]/tiny glue over proofs/SearcherProofs.v. *)
 From Verif Require Import model.Base model.Searcher proofs.SearcherProofs.
 
 (* ---------------- RandomSearcher --------------------------------------------------------------
-   debug_log given (a DebugLogPrinter exists), no restrict_configurations, allow_duplicates either
-   way: for EVERY history and EVERY snapshot point the clone is the original state itself (state
-   relation of the bisimulation = equality), so every continuation yields identical answers. *)
+   For EVERY constructor arguments (debug_log False / True / a DebugLogPrinter, allow_duplicates
+   either way, with or without restrict_configurations), EVERY history and EVERY snapshot point the
+   clone is the original state itself (state relation of the bisimulation = equality), so every
+   continuation yields identical answers.
+   History of this statement: before the fix commits for findings F-C16-3 and F-C16-4 it was false
+   of the code and the model proved
+     c16_clone_random_nodebug_refuted  (debug_log=False: clone_from_state passed debug_log=None and
+                                        the constructor's assertion failed, for every state), and
+     c16_clone_random_restrict_refuted (restrict_configurations, allow_duplicates=False:
+                                        _rc_returned_pos stayed None, AttributeError at the clone's
+                                        first random get_config);
+   their witnesses are kept below as Examples of the repaired behaviour. *)
 Theorem c16_clone_bisimilar_random :
   forall (C M : Type) (meqb : M -> M -> bool) (ms : C -> M)
-         (init : list C) dl allow_dup size retries s (history : list (rs_event C)),
-  rs_ctor C M meqb ms init dl allow_dup None size retries = Ok s -> rs_debug C M s = true ->
+         (init : list C) dl allow_dup restrict size retries s (history : list (rs_event C)),
+  rs_ctor C M meqb ms init dl allow_dup restrict size retries = Ok s ->
   let s1 := fst (rs_run C M meqb ms s history) in
   exists s1', rs_clone C M meqb ms s1 (rs_get_state C M s1) = Ok s1' /\ s1' = s1 /\
     forall continuation,
       snd (rs_run C M meqb ms s1' continuation) = snd (rs_run C M meqb ms s1 continuation).
 Proof.
-  intros C M meqb ms init dl ad sz rt s hist Hc Hd s1.
-  destruct (rs_clone_bisimilar C M meqb ms init dl ad sz rt s hist [] Hc Hd) as (s1' & H1 & H2 & _).
-  exists s1'. split; [exact H1|]. split; [exact H2|]. intro cont. rewrite H2. reflexivity.
+  intros C M meqb ms init dl ad rc sz rt s hist Hc s1.
+  exists s1. split; [exact (rs_clone_bisimilar C M meqb ms init dl ad rc sz rt s hist Hc)|].
+  split; reflexivity.
 Qed.
 Print Assumptions c16_clone_bisimilar_random.
 
@@ -30,19 +41,18 @@ Theorem c16_no_repeat_no_skip :
   forall (C M : Type) (meqb : M -> M -> bool) (ms : C -> M),
   (forall a b, meqb a b = true <-> a = b) ->
   forall (init : list C) dl size retries s (history continuation : list (rs_event C)),
-  NoDup init -> rs_ctor C M meqb ms init dl false None size retries = Ok s -> rs_debug C M s = true ->
+  NoDup init -> rs_ctor C M meqb ms init dl false None size retries = Ok s ->
   let s1 := fst (rs_run C M meqb ms s history) in
   exists s1', rs_clone C M meqb ms s1 (rs_get_state C M s1) = Ok s1' /\
     snd (rs_run C M meqb ms s history) ++ snd (rs_run C M meqb ms s1' continuation)
       = snd (rs_run C M meqb ms s (history ++ continuation)) /\
     NoDup (suggested C (snd (rs_run C M meqb ms s history) ++ snd (rs_run C M meqb ms s1' continuation))).
 Proof.
-  intros C M meqb ms Hm init dl sz rt s hist cont Hnd Hc Hd s1.
-  destruct (rs_clone_bisimilar C M meqb ms init dl false sz rt s hist cont Hc Hd) as (s1' & H1 & H2 & _).
-  exists s1'. split; [exact H1|].
-  assert (E : snd (rs_run C M meqb ms s hist) ++ snd (rs_run C M meqb ms s1' cont)
+  intros C M meqb ms Hm init dl sz rt s hist cont Hnd Hc s1.
+  exists s1. split; [exact (rs_clone_bisimilar C M meqb ms init dl false None sz rt s hist Hc)|].
+  assert (E : snd (rs_run C M meqb ms s hist) ++ snd (rs_run C M meqb ms s1 cont)
               = snd (rs_run C M meqb ms s (hist ++ cont))).
-  { rewrite H2. unfold s1. clear. revert s. induction hist as [|e r IH]; intros s; simpl.
+  { unfold s1. clear. revert s. induction hist as [|e r IH]; intros s; simpl.
     - destruct (rs_run C M meqb ms s cont); reflexivity.
     - destruct (rs_step C M meqb ms s e) as [sa oa]. specialize (IH sa).
       destruct (rs_run C M meqb ms sa r) as [sb ob]. simpl in *.
@@ -53,87 +63,66 @@ Proof.
 Qed.
 Print Assumptions c16_no_repeat_no_skip.
 
-(* The full statement (any constructor arguments) is FALSE of the code, two ways:
-   (1) debug_log=False (the constructor default): clone_from_state passes debug_log=None, the
-       constructor's assertion fails — for every state and snapshot. *)
-Theorem c16_clone_random_nodebug_refuted :
-  (forall (C M : Type) (meqb : M -> M -> bool) (ms : C -> M) (s : rs_state C M) st,
-     rs_debug C M s = false -> rs_clone C M meqb ms s st = Err AssertDebugLog) /\
-  exists s, rs_ctor nat nat Nat.eqb (fun c => c) [] (DLBool false) false None None 100 = Ok s /\
-            rs_clone nat nat Nat.eqb (fun c => c) s (rs_get_state nat nat s) = Err AssertDebugLog.
+(* the witnesses of the two former refutations: debug_log=False, and restrict_configurations with
+   allow_duplicates=False — original and clone now answer alike *)
+Example c16_clone_random_former_counterexamples :
+  (exists s, rs_ctor nat nat Nat.eqb (fun c => c) [] (DLBool false) false None None 100 = Ok s /\
+             rs_clone nat nat Nat.eqb (fun c => c) s (rs_get_state nat nat s) = Ok s) /\
+  (exists s s1' (continuation : list (rs_event nat)),
+     rs_ctor nat nat Nat.eqb (fun c => c) [] DLPrinter false (Some [0%nat; 1%nat]) (Some 2%nat) 100 = Ok s /\
+     rs_clone nat nat Nat.eqb (fun c => c) s (rs_get_state nat nat s) = Ok s1' /\
+     snd (rs_run nat nat Nat.eqb (fun c => c) s continuation) = [Ok (Some 0%nat)] /\
+     snd (rs_run nat nat Nat.eqb (fun c => c) s1' continuation) = [Ok (Some 0%nat)]).
 Proof.
-  split; [exact rs_clone_nodebug|]. eexists. split; reflexivity.
+  split.
+  - eexists. split; reflexivity.
+  - eexists. eexists. exists [RGet nat [DPos 0]]. repeat split; reflexivity.
 Qed.
-Print Assumptions c16_clone_random_nodebug_refuted.
-
-(* (2) restrict_configurations with allow_duplicates=False: the clone is built without
-       restrict_configurations, so _rc_returned_pos stays None although the restored list is
-       used: the first random get_config of the clone raises AttributeError where the original
-       answers a configuration. *)
-Theorem c16_clone_random_restrict_refuted :
-  exists s s1' (continuation : list (rs_event nat)),
-    rs_ctor nat nat Nat.eqb (fun c => c) [] DLPrinter false (Some [0%nat; 1%nat]) (Some 2%nat) 100 = Ok s /\
-    rs_clone nat nat Nat.eqb (fun c => c) s (rs_get_state nat nat s) = Ok s1' /\
-    snd (rs_run nat nat Nat.eqb (fun c => c) s continuation) = [Ok (Some 0%nat)] /\
-    snd (rs_run nat nat Nat.eqb (fun c => c) s1' continuation) = [Err AttrErrorNone].
-Proof.
-  eexists. eexists. exists [RGet nat [DPos 0]]. repeat split; reflexivity.
-Qed.
-Print Assumptions c16_clone_random_restrict_refuted.
 
 (* ---------------- GridSearcher ---------------------------------------------------------------
-   PARTIAL: the bisimulation holds when the grid is not shuffled, or the original happened to be
-   built with the default seed (shuffle seed = shuffle default_seed), and allow_duplicates=False.
-   Full statement (false, see the two theorems below):
-     forall seed sh allow_dup history continuation,
-       snd (gs_run (gs_clone .. s1 (gs_get_state s1)) continuation) = snd (gs_run s1 continuation). *)
-Theorem c16_clone_bisimilar_grid_partial :
+   For EVERY grid, shuffle function, seed of the original, shuffle_config, allow_duplicates,
+   history, snapshot point and continuation: the clone is the original state (get_state carries
+   the ordered grid, clone_from_state passes allow_duplicates on), so the answers are identical.
+   History: before the fix commits for findings F-C16-1 and F-C16-2 only a _partial statement held
+   (unshuffled grid or default seed, allow_duplicates=False) and the model proved
+     c16_clone_grid_seed_refuted              (grid 0,1,2 shuffled to 2,1,0 by the original's seed,
+                                               snapshot after one suggestion: the clone reshuffled
+                                               with the default seed, suggested 2 twice, 0 never) and
+     c16_clone_grid_allow_duplicates_refuted  (the clone answered None where the original started
+                                               another round);
+   their witnesses are kept below as Examples of the repaired behaviour.
+   A state written by an older version (no grid in it, gn_grid = None) still restores, with the
+   old behaviour. *)
+Theorem c16_clone_bisimilar_grid :
   forall (C M : Type) (meqb : M -> M -> bool) (ms : C -> M) (Seed : Type)
          (base : list C) (shuffle : Seed -> list C -> list C) (default_seed : Seed) (default_pts init : list C)
-         (seed : Seed) (sh : bool) (history continuation : list gs_event),
-  (sh = false \/ shuffle seed base = shuffle default_seed base) ->
-  let s1 := fst (gs_run C M meqb ms (gs_ctor C M base shuffle init seed sh false) history) in
+         (seed : Seed) (sh allow_dup : bool) (history continuation : list gs_event),
+  let s1 := fst (gs_run C M meqb ms (gs_ctor C M base shuffle init seed sh allow_dup) history) in
   gs_clone C M base shuffle default_seed default_pts s1 (gs_get_state C M s1) = s1 /\
   snd (gs_run C M meqb ms (gs_clone C M base shuffle default_seed default_pts s1 (gs_get_state C M s1)) continuation)
     = snd (gs_run C M meqb ms s1 continuation).
 Proof.
-  intros C M meqb ms Seed base shuffle dseed dpts init seed sh hist cont H.
-  exact (gs_clone_bisimilar C M meqb ms base shuffle dseed dpts init seed sh hist cont H).
+  intros C M meqb ms Seed base shuffle dseed dpts init seed sh ad hist cont s1.
+  exact (gs_clone_bisimilar C M meqb ms base shuffle dseed dpts s1 cont).
 Qed.
-Print Assumptions c16_clone_bisimilar_grid_partial.
+Print Assumptions c16_clone_bisimilar_grid.
 
-(* seeded original (what every scheduler does): the clone reshuffles with the default seed;
-   grid 0,1,2, original order 2,1,0, snapshot after one suggestion: the original goes on with
-   1,0,None, the clone with 1,2,None — 2 is suggested twice, 0 never. *)
-Theorem c16_clone_grid_seed_refuted :
-  exists (shuffle : bool -> list nat -> list nat),
-    (forall sd l, Permutation.Permutation (shuffle sd l) l) /\
-    let s1 := fst (gs_run nat nat Nat.eqb (fun c => c)
-                     (gs_ctor nat nat [0; 1; 2]%nat shuffle [] true true false) [GGet]) in
-    snd (gs_run nat nat Nat.eqb (fun c => c) (gs_ctor nat nat [0; 1; 2]%nat shuffle [] true true false) [GGet])
-      = [Some 2%nat] /\
-    snd (gs_run nat nat Nat.eqb (fun c => c) s1 [GGet; GGet; GGet]) = [Some 1%nat; Some 0%nat; None] /\
-    snd (gs_run nat nat Nat.eqb (fun c => c)
-           (gs_clone nat nat [0; 1; 2]%nat shuffle false [] s1 (gs_get_state nat nat s1)) [GGet; GGet; GGet])
-      = [Some 1%nat; Some 2%nat; None].
-Proof.
-  exists (fun (sd : bool) l => if sd then rev l else l). split.
-  - intros [|] l; [symmetry; apply Permutation.Permutation_rev | apply Permutation.Permutation_refl].
-  - repeat split; reflexivity.
-Qed.
-Print Assumptions c16_clone_grid_seed_refuted.
-
-(* allow_duplicates=True is not passed on: after a full round the original starts over, the clone stops *)
-Theorem c16_clone_grid_allow_duplicates_refuted :
-  let shuffle := fun (_ : unit) (l : list nat) => l in
-  let s1 := fst (gs_run nat nat Nat.eqb (fun c => c)
-                   (gs_ctor nat nat [0; 1]%nat shuffle [] tt false true) [GGet; GGet]) in
-  snd (gs_run nat nat Nat.eqb (fun c => c) s1 [GGet; GGet; GGet]) = [Some 0%nat; Some 1%nat; Some 0%nat] /\
-  snd (gs_run nat nat Nat.eqb (fun c => c)
-         (gs_clone nat nat [0; 1]%nat shuffle tt [] s1 (gs_get_state nat nat s1)) [GGet; GGet; GGet])
-    = [Some 0%nat; Some 1%nat; None].
-Proof. split; reflexivity. Qed.
-Print Assumptions c16_clone_grid_allow_duplicates_refuted.
+Example c16_clone_grid_former_counterexamples :
+  (let shuffle := fun (sd : bool) (l : list nat) => if sd then rev l else l in
+   let s1 := fst (gs_run nat nat Nat.eqb (fun c => c)
+                    (gs_ctor nat nat [0; 1; 2]%nat shuffle [] true true false) [GGet]) in
+   snd (gs_run nat nat Nat.eqb (fun c => c) s1 [GGet; GGet; GGet]) = [Some 1%nat; Some 0%nat; None] /\
+   snd (gs_run nat nat Nat.eqb (fun c => c)
+          (gs_clone nat nat [0; 1; 2]%nat shuffle false [] s1 (gs_get_state nat nat s1)) [GGet; GGet; GGet])
+     = [Some 1%nat; Some 0%nat; None]) /\
+  (let shuffle := fun (_ : unit) (l : list nat) => l in
+   let s1 := fst (gs_run nat nat Nat.eqb (fun c => c)
+                    (gs_ctor nat nat [0; 1]%nat shuffle [] tt false true) [GGet; GGet]) in
+   snd (gs_run nat nat Nat.eqb (fun c => c) s1 [GGet; GGet; GGet]) = [Some 0%nat; Some 1%nat; Some 0%nat] /\
+   snd (gs_run nat nat Nat.eqb (fun c => c)
+          (gs_clone nat nat [0; 1]%nat shuffle tt [] s1 (gs_get_state nat nat s1)) [GGet; GGet; GGet])
+     = [Some 0%nat; Some 1%nat; Some 0%nat]).
+Proof. repeat split; reflexivity. Qed.
 
 (* ---------------- GP searchers (bookkeeping) ---------------------------------------------------
    The snapshot carries points_to_evaluate and the whole tuning-job state (and, outside the model,
